@@ -323,14 +323,18 @@ def wagner_case(p, res):
         rot = [mags[i:] + mags[:i] for i in (0, 1, n // 2)]
         assigns = rot + [list(reversed(r)) for r in rot]
     Ls = [[m * (1 - 2 * ((s >> i) & 1)) for i, m in enumerate(a)] for a in assigns for s in range(1 << n)]
+    # erased / punctured positions: exactly-zero LLRs (one zero at every position, two zeros at the ends) under every sign pattern of the rest
+    for z in [(i,) for i in range(n)] + ([(0, n - 1)] if n > 2 else []):
+        for s in range(1 << n):
+            Ls.append([0.0 if i in z else mags[i] * (1 - 2 * ((s >> i) & 1)) for i in range(n)])
+
+    def corr(c, L):
+        return sum((1 - 2 * ((c >> i) & 1)) * L[i] for i in range(n))
 
     def ml(L):
-        best, bm = None, None
-        for m, c in zip(msgs, cws):
-            sc = sum((1 - 2 * ((c >> i) & 1)) * L[i] for i in range(n))
-            if best is None or sc > best:
-                best, bm = sc, m
-        return bm
+        """set of messages whose codeword attains the maximum correlation (ties are free)"""
+        best = max(corr(c, L) for c in cws)
+        return {m for m, c in zip(msgs, cws) if corr(c, L) >= best - 1e-9}
     exp = [ml(L) for L in Ls]
     # layouts: (B,n) all vectors; 1-D for a subset; (B,2n) pairs
     for layout in ("B,n", "1d", "B,2n"):
@@ -360,10 +364,10 @@ def wagner_case(p, res):
         if got is None:
             v("shape", f"layout {layout}: unexpected output shape {tuple(y.shape)}", {"layout": layout})
             continue
-        bad = [i for i, (g, e) in enumerate(zip(got, want)) if g != e]
+        bad = [i for i, (g, e) in enumerate(zip(got, want)) if g not in e]
         if bad:
             i = bad[0]
-            v("wagner-ml", f"layout {layout}: {len(bad)}/{len(want)} inputs not decoded to the maximum-likelihood even-parity word, e.g. item {i}: got {None if got[i] is None else gf2.bits(got[i], k)}, ML message {gf2.bits(want[i], k)}", {"layout": layout, "i": i})
+            v("wagner-ml", f"layout {layout}: {len(bad)}/{len(want)} inputs not decoded to a maximum-likelihood even-parity word, e.g. item {i}: got {None if got[i] is None else gf2.bits(got[i], k)}, ML message(s) {[gf2.bits(t, k) for t in sorted(want[i])]}", {"layout": layout, "i": i})
     # noise-free clause
     for mag in MAGS:
         y = dec(torch.tensor([[(1 - 2 * bit) * mag for bit in gf2.bits(c, n)] for c in cws], dtype=torch.float32))
